@@ -104,6 +104,24 @@ def _returns(fn: ast.FunctionDef) -> list[ast.Return]:
     return [n for n in ast.walk(fn) if isinstance(n, ast.Return)]
 
 
+def _linear_stmts(body: list[ast.stmt]) -> list[ast.stmt]:
+    """the statements executed on every iteration, in order (top level of the loop body)"""
+    return list(body)
+
+
+def _fmt_lin(f: dict | None) -> str:
+    if f is None:
+        return '?'
+    parts = []
+    for k, v in sorted(f.items()):
+        name = k if k else '1'
+        if k.startswith('#min'):
+            name = 'min(..)'
+        parts.append((f'{"-" if v < 0 else "+"} ' + (f'{abs(v)}*' if abs(v) != 1 and k else '') +
+                      (name if k else str(abs(v)))))
+    return ' '.join(parts).lstrip('+ ') or '0'
+
+
 def r20_2(rep: Report, cls: ast.ClassDef) -> None:
     """must-facts:  win(v)   v <= size - pos_at_entry   (size known)
                     posorig  self.pos not yet modified
@@ -165,68 +183,162 @@ def r20_2(rep: Report, cls: ast.ClassDef) -> None:
                 return s
 
         # which local names hold "assembled" data, and how they were assembled
-        def assembled_ok(var: str, facts) -> tuple[bool, str]:
-            """var = buf.getvalue() where every buf.write() is a bounded chunk and the
-            chunks sum to a win-bounded total (while todo: sz=min(todo,..); write(x[a:a+sz]);
-            todo -= sz)"""
-            getv = [n for n in ast.walk(fn) if isinstance(n, ast.Assign)
-                    and isinstance(n.targets[0], ast.Name) and n.targets[0].id == var]
-            if len(getv) != 1 or not isinstance(getv[0].value, ast.Call) \
-                    or not isinstance(getv[0].value.func, ast.Attribute) \
-                    or getv[0].value.func.attr != 'getvalue':
-                return False, f'`{var}` is not a single buf.getvalue()'
-            bufname = norm(getv[0].value.func.value)
-            writes = [n for n in ast.walk(fn) if isinstance(n, ast.Call)
-                      and call_name(n) == f'{bufname}.write']
-            if not writes:
+        def assembled_ok(ret: ast.AST, facts) -> tuple[bool, str]:
+            """the returned bytes are assembled from chunks - `buf.write(c)` .. `buf.getvalue()`,
+            `chunks.append(c)` .. `b''.join(chunks)`, `data += c` .. `data` - in a loop
+            `while counter:` where every chunk is a slice of length L, the counter drops by D = L per
+            chunk, D <= counter (D or the slice's upper bound is min(.. counter ..)), and the counter
+            starts as a total clamped to size - pos: the assembled length is at most that total."""
+            acc = None                  # name of the accumulator object
+            adders: list[tuple[ast.AST, ast.AST]] = []     # (statement/call node, chunk expression)
+            src = ret
+            if isinstance(src, ast.Name):
+                defs = [n for n in ast.walk(fn) if isinstance(n, ast.Assign)
+                        and isinstance(n.targets[0], ast.Name) and n.targets[0].id == src.id]
+                augs = [n for n in ast.walk(fn) if isinstance(n, ast.AugAssign)
+                        and isinstance(n.target, ast.Name) and n.target.id == src.id and isinstance(n.op, ast.Add)]
+                if augs and all(norm(d.value) in EMPTY or (isinstance(d.value, ast.Constant) and d.value.value in ('', b''))
+                                for d in defs):
+                    acc = src.id
+                    adders = [(g, g.value) for g in augs]
+                elif len(defs) == 1:
+                    src = defs[0].value
+                else:
+                    return False, f'`{src.id}` is not a single buf.getvalue()'
+            if acc is None:
+                if isinstance(src, ast.Call) and isinstance(src.func, ast.Attribute) \
+                        and src.func.attr == 'getvalue' and isinstance(src.func.value, ast.Name):
+                    acc = src.func.value.id
+                    adders = [(n, n.args[0]) for n in ast.walk(fn) if isinstance(n, ast.Call)
+                              and call_name(n) == f'{acc}.write' and n.args]
+                elif isinstance(src, ast.Call) and isinstance(src.func, ast.Attribute) and src.func.attr == 'join' \
+                        and norm(src.func.value) in EMPTY and len(src.args) == 1 and isinstance(src.args[0], ast.Name):
+                    acc = src.args[0].id
+                    adders = [(n, n.args[0]) for n in ast.walk(fn) if isinstance(n, ast.Call)
+                              and call_name(n) == f'{acc}.append' and n.args]
+                    other = [n for n in ast.walk(fn) if isinstance(n, ast.Call) and isinstance(n.func, ast.Attribute)
+                             and norm(n.func.value) == acc and n.func.attr in ('extend', 'insert')]
+                    if other:
+                        return False, f'`{acc}` is also filled by `{short(other[0])}`'
+                else:
+                    return False, f'`{norm(ret)}` is not a single buf.getvalue()'
+            if not adders:
                 return False, 'no writes'
-            for w in writes:
+            for w, chunk_e in adders:
                 loop = None
-                for a in ancestors(w):
-                    if isinstance(a, ast.While):
-                        loop = a
+                for a_ in ancestors(w):
+                    if isinstance(a_, ast.While):
+                        loop = a_
                         break
                 if loop is None:
                     return False, 'write outside the chunk loop'
-                counter = norm(loop.test).replace(' > 0', '')
-                # the slice written
+                t = loop.test
+                if isinstance(t, ast.Compare) and len(t.ops) == 1 and isinstance(t.ops[0], ast.Gt) \
+                        and isinstance(t.comparators[0], ast.Constant) and t.comparators[0].value == 0:
+                    t = t.left
+                if not isinstance(t, ast.Name):
+                    return False, f'chunk loop `while {norm(loop.test)}` does not count a total down'
+                counter = t.id
+                # per-iteration locals as linear forms; min(..) is a symbol with its arguments as upper bounds
+                env: dict[str, dict] = {}
+                mins: dict[str, list[dict]] = {}
+
+                def ev(e: ast.AST):
+                    if isinstance(e, ast.Name) and e.id in env:
+                        return dict(env[e.id])
+                    if isinstance(e, ast.Call) and call_name(e) == 'min' and e.args and not e.keywords:
+                        forms = [ev(x) for x in e.args]
+                        if any(f_ is None for f_ in forms):
+                            return None
+                        sym = f'#min{len(mins)}'
+                        mins[sym] = forms
+                        return {sym: 1}
+                    if isinstance(e, ast.BinOp) and isinstance(e.op, (ast.Add, ast.Sub)):
+                        x, y = ev(e.left), ev(e.right)
+                        if x is None or y is None:
+                            return None
+                        out = dict(x)
+                        sg = 1 if isinstance(e.op, ast.Add) else -1
+                        for k_, v_ in y.items():
+                            out[k_] = out.get(k_, 0) + sg * v_
+                        return {k_: v_ for k_, v_ in out.items() if v_}
+                    return lin(e)
                 sl = None
-                for c in ast.walk(w.args[0]):
-                    if isinstance(c, ast.Subscript) and isinstance(c.slice, ast.Slice):
-                        sl = c.slice
-                        break
+                dec = None
+                for stmt in _linear_stmts(loop.body):
+                    if sl is None and any(x is w for x in ast.walk(stmt)):
+                        for c in ast.walk(chunk_e):
+                            if isinstance(c, ast.Subscript) and isinstance(c.slice, ast.Slice):
+                                sl = c.slice
+                                break
+                        if sl is None:
+                            return False, f'`{short(w)}` does not write a slice'
+                        if sl.upper is None:
+                            return False, (f'`{short(w)}` writes an open-ended slice of the cached bucket: '
+                                           'bytes beyond the requested count (and beyond the window end) '
+                                           'are returned')
+                        lo = ev(sl.lower) if sl.lower is not None else {}
+                        up = ev(sl.upper)
+                        if lo is None or up is None:
+                            return False, f'cannot normalise slice bounds of `{short(w)}`'
+                        length = dict(up)
+                        for k_, v_ in lo.items():
+                            length[k_] = length.get(k_, 0) - v_
+                        length = {k_: v_ for k_, v_ in length.items() if v_}
+                    if isinstance(stmt, ast.AugAssign) and isinstance(stmt.target, ast.Name) \
+                            and stmt.target.id == counter:
+                        if not isinstance(stmt.op, ast.Sub) or dec is not None:
+                            return False, f'`{counter}` is changed by `{norm(stmt)}`'
+                        dec = ev(stmt.value)
+                    elif isinstance(stmt, ast.Assign) and len(stmt.targets) == 1:
+                        tg = stmt.targets[0]
+                        if isinstance(tg, ast.Name):
+                            if tg.id == counter:
+                                return False, f'`{counter}` is reassigned inside the chunk loop'
+                            val = ev(stmt.value)
+                            if val is not None:
+                                env[tg.id] = val
+                            else:
+                                env.pop(tg.id, None)
+                        elif isinstance(tg, (ast.Tuple, ast.List)) and isinstance(stmt.value, (ast.Tuple, ast.List)) \
+                                and len(tg.elts) == len(stmt.value.elts):
+                            vals = [ev(x) for x in stmt.value.elts]
+                            for te, val in zip(tg.elts, vals):
+                                if isinstance(te, ast.Name):
+                                    if val is not None:
+                                        env[te.id] = val
+                                    else:
+                                        env.pop(te.id, None)
+                    elif isinstance(stmt, ast.AugAssign) and isinstance(stmt.target, ast.Name):
+                        env.pop(stmt.target.id, None)
                 if sl is None:
-                    return False, f'`{short(w)}` does not write a slice'
-                if sl.upper is None:
-                    return False, (f'`{short(w)}` writes an open-ended slice of the cached bucket: '
-                                   'bytes beyond the requested count (and beyond the window end) '
-                                   'are returned')
-                lo = lin(sl.lower) if sl.lower is not None else {}
-                up = lin(sl.upper)
-                if lo is None or up is None:
-                    return False, f'cannot normalise slice bounds of `{short(w)}`'
-                diff = dict(up)
-                for k, v in lo.items():
-                    diff[k] = diff.get(k, 0) - v
-                diff = {k: v for k, v in diff.items() if v}
-                if len(diff) != 1 or list(diff.values()) != [1]:
-                    return False, f'slice length of `{short(w)}` is not a single chunk variable'
-                chunk = next(iter(diff))
-                # chunk = min(counter, ...) and counter -= chunk in the same loop
-                has_min = any(isinstance(n, ast.Assign) and isinstance(n.targets[0], ast.Name)
-                              and n.targets[0].id == chunk and isinstance(n.value, ast.Call)
-                              and call_name(n.value) == 'min'
-                              and any(norm(a) == counter for a in n.value.args)
-                              for n in ast.walk(loop))
-                has_dec = any(isinstance(n, ast.AugAssign) and isinstance(n.op, ast.Sub)
-                              and norm(n.target) == counter and norm(n.value) == chunk
-                              for n in ast.walk(loop))
-                if not (has_min and has_dec):
-                    return False, (f'chunk `{chunk}` is not min({counter}, ..) with '
-                                   f'`{counter} -= {chunk}`')
+                    return False, f'`{short(w)}` is not on the straight line of the chunk loop'
+                if dec is None:
+                    return False, f'the chunk loop never counts `{counter}` down'
+                if dec != length:
+                    return False, (f'chunk `{_fmt_lin(length)}` is not min({counter}, ..) with '
+                                   f'`{counter} -= {_fmt_lin(length)}` (the loop counts down by {_fmt_lin(dec)})')
+                # D <= counter: D = M + r with M = min(.. a ..) and a + r == counter
+                bounded = False
+                for sym, forms in mins.items():
+                    if dec.get(sym) != 1:
+                        continue
+                    r_ = {k_: v_ for k_, v_ in dec.items() if k_ != sym}
+                    for f_ in forms:
+                        tot = dict(f_)
+                        for k_, v_ in r_.items():
+                            tot[k_] = tot.get(k_, 0) + v_
+                        tot = {k_: v_ for k_, v_ in tot.items() if v_}
+                        if tot == {counter: 1}:
+                            bounded = True
+                if not bounded:
+                    return False, (f'chunk `{_fmt_lin(length)}` is not min({counter}, ..) with '
+                                   f'`{counter} -= {_fmt_lin(length)}`: a chunk can be longer than what is left '
+                                   'of the requested count')
                 # counter initialised from a win value
                 inits = [n for n in ast.walk(fn) if isinstance(n, ast.Assign)
-                         and isinstance(n.targets[0], ast.Name) and n.targets[0].id == counter]
+                         and isinstance(n.targets[0], ast.Name) and n.targets[0].id == counter
+                         and not any(x is n for x in ast.walk(loop))]
                 if len(inits) != 1 or not isinstance(inits[0].value, ast.Name):
                     return False, f'counter `{counter}` not initialised from a name'
                 if ('win', inits[0].value.id) not in facts and 'sizenone' not in facts:
@@ -271,12 +383,13 @@ def r20_2(rep: Report, cls: ast.ClassDef) -> None:
                     ok = True
                 else:
                     why = f'slice bound `{v.slice.upper.id}` is not clamped to size - pos'
-            elif isinstance(v, ast.Name):
-                ok, why = assembled_ok(v.id, facts)
+            elif isinstance(v, ast.Name) or (isinstance(v, ast.Call) and isinstance(v.func, ast.Attribute)
+                                             and v.func.attr in ('getvalue', 'join')):
+                ok, why = assembled_ok(v, facts)
                 if not ok and 'not a single buf.getvalue' in why:
                     # e.g. rv = self.reader.read()
                     defs = [n for n in ast.walk(fn) if isinstance(n, ast.Assign)
-                            and norm(n.targets[0]) == v.id]
+                            and norm(n.targets[0]) == norm(v)]
                     if len(defs) == 1 and isinstance(defs[0].value, ast.Call) \
                             and call_name(defs[0].value) == 'self.reader.read':
                         args = defs[0].value.args
@@ -480,38 +593,65 @@ def r20_4(rep: Report, cls: ast.ClassDef) -> None:
         def gen(st):
             return []
 
+        B = 'self.buffersize'
+
+        def aligned(e: ast.AST, s) -> bool:
+            """is e a multiple of buffersize, given the names known to be? (congruence mod B)"""
+            if isinstance(e, ast.Constant):
+                return e.value == 0 and not isinstance(e.value, bool)
+            if isinstance(e, ast.Name):
+                return ('aligned', e.id) in s
+            if isinstance(e, ast.BinOp):
+                if isinstance(e.op, ast.Mult):
+                    return norm(e.left) == B or norm(e.right) == B or aligned(e.left, s) or aligned(e.right, s)
+                if isinstance(e.op, (ast.Add, ast.Sub)):
+                    if aligned(e.left, s) and aligned(e.right, s):
+                        return True
+                    # x - x % B
+                    if isinstance(e.op, ast.Sub) and isinstance(e.right, ast.BinOp) \
+                            and isinstance(e.right.op, ast.Mod) and norm(e.right.left) == norm(e.left) \
+                            and norm(e.right.right) == B:
+                        return True
+            if norm(e) == B:
+                return True
+            return False
+
         class Al(MustFacts):
             def transfer(self, st, s):
                 s = set(s)
-                if isinstance(st, ast.Assign) and len(st.targets) == 1 \
-                        and isinstance(st.targets[0], ast.Name):
-                    v = st.targets[0].id
-                    s = {f for f in s if f[1] != v}
-                    val = st.value
-                    if isinstance(val, ast.BinOp) and isinstance(val.op, ast.FloorDiv) \
-                            and norm(val.right) == 'self.buffersize':
-                        s.add(('quot', v))
-                    if isinstance(val, ast.BinOp) and isinstance(val.op, ast.Mult) \
-                            and 'self.buffersize' in (norm(val.left), norm(val.right)):
-                        other = val.left if norm(val.right) == 'self.buffersize' else val.right
-                        if isinstance(other, ast.BinOp) and isinstance(other.op, ast.FloorDiv) \
-                                and norm(other.right) == 'self.buffersize':
+                pairs: list[tuple[str, ast.AST | None]] = []
+                if isinstance(st, (ast.Assign, ast.AnnAssign)) and getattr(st, 'value', None) is not None:
+                    tgts = st.targets if isinstance(st, ast.Assign) else [st.target]
+                    for t in tgts:
+                        if isinstance(t, ast.Name):
+                            pairs.append((t.id, st.value))
+                        elif isinstance(t, (ast.Tuple, ast.List)):
+                            vals = st.value.elts if isinstance(st.value, (ast.Tuple, ast.List)) \
+                                and len(st.value.elts) == len(t.elts) else [None] * len(t.elts)
+                            for te, ve in zip(t.elts, vals):
+                                if isinstance(te, ast.Name):
+                                    pairs.append((te.id, ve))
+                    verdicts_ = [(v, val is not None and aligned(val, s)) for v, val in pairs]
+                    for v, ok_ in verdicts_:
+                        s = {f for f in s if f[1] != v}
+                    for v, ok_ in verdicts_:
+                        if ok_:
                             s.add(('aligned', v))
-                    if isinstance(val, ast.BinOp) and isinstance(val.op, ast.Sub) \
-                            and isinstance(val.right, ast.BinOp) and isinstance(val.right.op, ast.Mod) \
-                            and norm(val.right.left) == norm(val.left) \
-                            and norm(val.right.right) == 'self.buffersize':
-                        s.add(('aligned', v))
                 elif isinstance(st, ast.AugAssign) and isinstance(st.target, ast.Name):
                     v = st.target.id
-                    had_q = ('quot', v) in s
                     had_a = ('aligned', v) in s
+                    keep = False
+                    if isinstance(st.op, ast.Mult) and (norm(st.value) == B or aligned(st.value, s) or had_a):
+                        keep = True
+                    if isinstance(st.op, (ast.Add, ast.Sub)) and had_a and aligned(st.value, s):
+                        keep = True
                     s = {f for f in s if f[1] != v}
-                    if isinstance(st.op, ast.Mult) and norm(st.value) == 'self.buffersize' and had_q:
+                    if keep:
                         s.add(('aligned', v))
-                    if isinstance(st.op, (ast.Add, ast.Sub)) and norm(st.value) == 'self.buffersize' \
-                            and had_a:
-                        s.add(('aligned', v))
+                elif isinstance(st, ast.For):
+                    for x in ast.walk(st.target):
+                        if isinstance(x, ast.Name):
+                            s = {f for f in s if f[1] != x.id}
                 return frozenset(s)
 
         def on_stmt(st, s, _m=m, _c=mconstruct):
@@ -521,9 +661,7 @@ def r20_4(rep: Report, cls: ast.ClassDef) -> None:
                 if isinstance(c, ast.Call) and call_name(c) == 'self.cache':
                     a = c.args[0]
                     key = f'cache({norm(a)})'
-                    if isinstance(a, ast.Name) and ('aligned', a.id) in s:
-                        rep.ok(rid, _c, key)
-                    elif isinstance(a, ast.Constant) and a.value == 0:
+                    if aligned(a, s):
                         rep.ok(rid, _c, key)
                     else:
                         rep.fail(rid, _c, key,
